@@ -203,9 +203,43 @@ func runC19(c *Ctx) {
 	c.Rule("C19.2", "GET is issued only under useGet and within the URL limit; useGet is the three-way conjunction; Request.Method stored only from the builder or POST", 6)
 	cus := p.MustNamed("connectUnaryServerProtocol")
 	rl := p.MethodOf(cus, "requestLine")
-	useGet := p.MethodOf(cus, "useGet")
-	if rl == nil || useGet == nil {
-		fatalf("anchor=connectUnaryServerProtocol.requestLine/useGet not found")
+	if rl == nil {
+		fatalf("anchor=connectUnaryServerProtocol.requestLine not found")
+	}
+	// the GET predicate ("useGet" today): the module function returning bool whose true outcome
+	// dominates a return of the constant GET in the request-line builder - found by role, not by name
+	var useGet *ssa.Function
+	ForEachInstr(rl, func(in ssa.Instruction) {
+		ret, ok := in.(*ssa.Return)
+		if !ok || len(ret.Results) != 5 || ret.Block() == rl.Recover {
+			return
+		}
+		isGet := false
+		for _, l := range Origins(ReturnValues(ret)[2]) {
+			if s, isS := ConstString(l.V); l.Kind == "const" && isS && s == "GET" {
+				isGet = true
+			}
+		}
+		if !isGet {
+			return
+		}
+		for _, f := range FactsAt(ret.Block()) {
+			call, ok := f.Cond.(*ssa.Call)
+			if !ok || !f.Truth {
+				continue
+			}
+			for _, cal := range p.CalleesAt(call) {
+				if p.inScope(cal) && len(cal.Blocks) > 0 && cal.Signature.Results().Len() == 1 && isBoolType(cal.Signature.Results().At(0).Type()) {
+					if useGet == nil || FuncName(cal) < FuncName(useGet) {
+						useGet = cal
+					}
+				}
+			}
+		}
+	})
+	if useGet == nil {
+		c.Unknown("C19.2", FuncName(rl), "get-predicate", rl.Pos(), "no return of GET in the request-line builder is dominated by the true outcome of a boolean predicate function: the GET conditions are not in the recognised form")
+		return
 	}
 	maxGetFld := p.MustField("serviceOptions", "maxGetURLBytes")
 	nGet, nPost := 0, 0
@@ -348,23 +382,30 @@ func runC19(c *Ctx) {
 	handle := p.MustFunc("(*operation).handle")
 	drain := p.MustFunc("(*operation).drainBody")
 	nDrain := 0
-	for _, call := range Calls(handle) {
-		isDrain := false
-		for _, cal := range p.CalleesAt(call) {
-			if cal == drain {
-				isDrain = true
+	var drainScope []*ssa.Function
+	for _, fn := range p.Funcs {
+		if p.OnlyCalledWithin(fn, handle) {
+			drainScope = append(drainScope, fn)
+		}
+	}
+	var drainCalls []ssa.CallInstruction
+	for _, fn := range drainScope {
+		for _, call := range Calls(fn) {
+			for _, cal := range p.CalleesAt(call) {
+				if cal == drain {
+					drainCalls = append(drainCalls, call)
+				}
 			}
 		}
-		if !isDrain {
-			continue
-		}
+	}
+	for _, call := range drainCalls {
 		nDrain++
 		ok := false
-		for _, f := range FactsAt(call.Block()) {
+		for _, f := range p.FactsAtInter(call.Block()) {
 			if !f.Truth {
 				continue
 			}
-			for _, l := range Origins(f.Cond) {
+			for _, l := range p.OriginsInter(f.Cond) {
 				if l.Kind == "call" && l.Call.Common().IsInvoke() && l.Call.Common().Method.Name() == "requestLine" && l.Index == 3 {
 					for _, op := range l.Ops {
 						if op == token.NOT {
